@@ -445,6 +445,23 @@ func (g *flGen) breakFields(fs []hpack.HeaderField) ([]hpack.HeaderField, string
 	case 0:
 		return insertRegular(hpack.HeaderField{Name: vs.Pick(c, "X-Foo", "Accept", "x-fOo", "Z"), Value: "v"}), "hdr_upper_name"
 	case 1:
+		if vs.Bool(c) {
+			// a name with one arbitrary non-ASCII rune (2-, 3- or 4-byte UTF-8) among
+			// token characters, or a lone byte >= 0x80
+			var r rune
+			switch c.Intn(4) {
+			case 0:
+				r = rune(0x80 + c.Intn(0x800-0x80))
+			case 1:
+				r = rune(0x800 + c.Intn(0xd800-0x800))
+			case 2:
+				r = rune(0x10000 + c.Intn(0x100000))
+			default:
+				return insertRegular(hpack.HeaderField{Name: "x" + string([]byte{byte(0x80 + c.Intn(0x80))}) + "y", Value: "v"}), "hdr_bad_name"
+			}
+			name := vs.Pick(c, "", "x-", "a") + string(r) + vs.Pick(c, "", "-id", "bc")
+			return insertRegular(hpack.HeaderField{Name: name, Value: "v"}), "hdr_bad_name"
+		}
 		return insertRegular(hpack.HeaderField{Name: vs.Pick(c, "x y", "a:b", "x\x00", "caf\xc3\xa9", "x(", "x\n", "a/b", "\x7f", " x"), Value: "v"}), "hdr_bad_name"
 	case 2:
 		return insertRegular(hpack.HeaderField{Name: "", Value: "v"}), "hdr_empty_name"
